@@ -628,6 +628,111 @@ def built_value(kind):
                    "Tr/-": ("built", "Tr", "T:K0", None), "Tr/tree": ("built", "Tr", "T:K0", tree)}[kind])
 
 
+# ---- R20.10 the generic tree iterators behind every translation / visit / comparison ---------------------------------------
+
+def check_tree_iterators(chk, F):
+    from .. import builtins as B
+    from . import c18
+    rid = "R20.10"
+    chk.rule(rid, "the generic iterators of iter/tree.rs, evaluated from their source (TreeLike::post_order_iter / "
+                  "rtl_post_order_iter / pre_order_iter and their Iterator::next), yield on policy trees and on every miniscript "
+                  "fragment exactly: post-order - every node after its children, left to right, with its index and its "
+                  "children's indices; right-to-left post-order - the same with children visited right to left; pre-order - every "
+                  "node before its children; (the analyser's own models of these iterators, used by the other rules, are compared "
+                  "with the source on the same trees)")
+    names = {"post": "iter::tree::TreeLike::post_order_iter", "rtl": "iter::tree::TreeLike::rtl_post_order_iter",
+             "pre": "iter::tree::TreeLike::pre_order_iter"}
+    nxt = {"post": "<iter::tree::PostOrderIter<T> as std::iter::Iterator>::next",
+           "rtl": "<iter::tree::RtlPostOrderIter<T> as std::iter::Iterator>::next",
+           "pre": "<iter::tree::PreOrderIter<T> as std::iter::Iterator>::next"}
+    for q in list(names.values()) + list(nxt.values()):
+        if q not in F.bodies:
+            chk.fail(rid, "anchor|" + q, "%s not found" % q, kind="unanalysable")
+            return
+    chk.saw(*(list(names.values()) + list(nxt.values())))
+    m = Machine(F, strict=True)
+    # the built-in models of these functions are bypassed: their bodies in src/iter/tree.rs are evaluated
+    m.from_source = set(names.values()) | {"iter::tree::TreeLike::n_children", "iter::tree::TreeLike::nth_child"}
+    A, Bk, C = ("key", "A"), ("key", "B"), ("key", "C")
+    O5 = ("older", 5)
+    pols = [A, ("thresh", 1, [A]), ("thresh", 2, [A, Bk]), ("thresh", 2, [A, Bk, C]), ("thresh", 2, [A, ("thresh", 1, [Bk, C]), O5]),
+            ("thresh", 1, [("thresh", 2, [A, Bk]), ("thresh", 2, [C, O5])]),
+            ("thresh", 2, [("thresh", 1, [("thresh", 2, [A, Bk]), C]), O5, ("thresh", 3, [A, Bk, C])]),
+            ("thresh", 1, [("thresh", 1, [("thresh", 1, [("thresh", 1, [A])])])])]
+    trees = [("semantic:" + repr(p_)[:50], c18.to_lib(F, p_)) for p_ in pols]
+    trees += [("concrete:" + repr(p_)[:50], c18.to_lib(F, p_, c18.CP)) for p_ in pols[:6]]
+    trees += [("concrete:and/or", c18.to_lib(F, ("and", [("or", [A, Bk]), ("and", [C, O5])]), c18.CP))]
+    for v in model.variants(F):
+        trees.append(("miniscript:" + v, mk_ms(F, v)))
+
+    def ident(node):
+        return repr(B.deref(node))
+
+    def item(i):
+        return (ident(i.fields["node"]), i.fields["index"], list(i.fields["child_indices"].items))
+
+    def spec(root, impl):
+        """(post, rtl, pre) orders by the definition, children through the type's own as_node"""
+        post, rtl, pre = [], [], []
+
+        def go(node, out, reverse):
+            ch = B.tree_children(m, node, impl)
+            idx = [go(x, out, reverse) for x in (reversed(ch) if reverse else ch)]
+            # child indices are reported in left-to-right child order in both directions
+            out.append((ident(node), len(out), list(reversed(idx)) if reverse else idx))
+            return len(out) - 1
+
+        def gopre(node):
+            pre.append(ident(node))
+            for x in B.tree_children(m, node, impl):
+                gopre(x)
+        go(root, post, False)
+        go(root, rtl, True)
+        gopre(root)
+        return post, rtl, pre
+    n = 0
+    for key, root in trees:
+        try:
+            node = B.deref(root)
+            imps = [i for i in F.impls if i["trait"] == "iter::tree::TreeLike" and i["self_adt"] == node.path]
+            refs = [i for i in imps if (i.get("self_ty") or "").startswith("&")] or imps
+            if not refs:
+                raise Unsupported("no TreeLike impl for %s" % node.path)
+            st = refs[0]["self_ty"]
+            impl = {it["name"]: it["path"] for it in refs[0]["items"]}
+            post, rtl, pre = spec(root, impl)
+            bad = []
+            for kind, want in (("post", post), ("rtl", rtl), ("pre", pre)):
+                it = m.call_path(names[kind], [root], {"def": names[kind], "targs": [st]})
+                got = []
+                for _ in range(len(want) + 3):
+                    r = m.call_path(nxt[kind], [it], {"def": nxt[kind], "targs": [st]})
+                    if r.variant == "None":
+                        break
+                    x = B.deref(r.fields["0"])
+                    got.append(ident(x) if kind == "pre" else item(x))
+                if got != want:
+                    first = next((j for j, (g_, w_) in enumerate(zip(got, want)) if g_ != w_), min(len(got), len(want)))
+                    bad.append("%s-order from the source differs from the definition at item %d (%d vs %d items)"
+                               % (kind, first, len(got), len(want)))
+                # the analyser's model
+                if kind == "post":
+                    mod = [item(i) for i in B._post_order(m, root)]
+                elif kind == "rtl":
+                    mod = [item(i) for i in B._post_order(m, root, rtl=True)]
+                else:
+                    mod = [ident(x) for x in B._pre_order_iter(m, [root], {}).items]
+                if mod != want:
+                    bad.append("the analyser's %s-order model differs from the definition" % kind)
+            n += 1
+            chk.obligation(rid, not bad, key, "; ".join(bad), where="src/iter/tree.rs")
+        except Unsupported as e:
+            chk.fail(rid, "unanalysable:" + key, "unanalysable: %s" % e, where=e.where, kind="unanalysable")
+        except Panic as e:
+            chk.fail(rid, key, "panic: %s" % e, where="src/iter/tree.rs")
+    chk.floor(rid, "trees", n, 40)
+
+
 def run(chk):
     F = chk.facts()
     chk.explanation = (
@@ -637,7 +742,7 @@ def run(chk):
         "covers every key-carrying variant computed from the type definition; TreeLike::as_node, branches and "
         "get_nth_child agree with the arity and order of the type definition; wrapper translations and Descriptor "
         "dispatch are uniform.")
-    chk.trusted = ["model of generic tree iterators (iter/tree.rs)", "factgen THIR; msverif.interp"]
+    chk.trusted = ["factgen THIR; msverif.interp"]
     chk.assumptions = ["identity / composition laws on deep trees follow from per-node structure preservation (not re-proved)",
                        "DescriptorPublicKey-level behaviour (derivation) is not covered"]
     check_translate(chk, F)
@@ -650,3 +755,4 @@ def run(chk):
     from . import wholedesc
     chk.guard("R20.8", "whole-descriptor-visit", wholedesc.check_visit, chk, F, "R20.8")
     chk.guard("R20.9", "whole-descriptor-translate", wholedesc.check_translate, chk, F, "R20.9")
+    chk.guard("R20.10", "tree-iterators", check_tree_iterators, chk, F)
